@@ -1,5 +1,5 @@
 """C08 - what registration returns is exactly what authenticates; nothing else does."""
-import json, hashlib
+import cbor2, json, hashlib
 from harness import srcdict, fw, impl, authsim, authcat, authrun, regsim, regcat, regrun
 
 TRUSTED = [
@@ -106,6 +106,39 @@ def run(tier, seed):
             if vr.credential_id != s.cred_id:
                 chk.violation("registration returned a credential id other than the attested one", f"returned-id {fmt} outer-rawid",
                               {"fmt": fmt, "returned": vr.credential_id.hex(), "attested": s.cred_id.hex(), "outer_raw_id": s.k["outer_raw_id"].hex(), "credential": reg.as_dict()})
+    # a COSE key whose y member is given in another form (a CBOR bool carrying the sign bit as in point compression, the bare SEC1 prefix, an integer): IF such a key gets
+    # registered at all, the key that authenticates against what registration returned is the one the form denotes - never its mirror image (x, p - y), the key of n - d
+    from cryptography.hazmat.primitives.asymmetric import ec as _ec
+    ORDER = {"secp256r1": 0xFFFFFFFF00000000FFFFFFFFFFFFFFFFBCE6FAADA7179E84F3B9CAC2FC632551,
+             "secp384r1": 0xFFFFFFFFFFFFFFFFFFFFFFFFFFFFFFFFFFFFFFFFFFFFFFFFC7634D81F4372DDF581A0DB248B0A77AECEC196ACCC52973,
+             "secp521r1": int("1" + "F" * 65 + "A51868783BF2F966B7FCC0148F709A5D03BB5C9B8899C47AEBB6FB71E91386409", 16)}
+    for kind in ("ES256-P256", "ES256-P384", "ES512-P521"):
+        P = authsim.Cred(kind, slot=3)
+        N = authsim.Cred(kind, sk=_ec.derive_private_key(ORDER[P.pk.curve.name] - P.sk.private_numbers().private_value, P.pk.curve))
+        for owner, other in ((P, N), (N, P)):
+            ybit = owner.pk.public_numbers().y & 1
+            for what, yform in (("bool sign bit", bool(ybit)), ("integer sign bit", ybit), ("SEC1 prefix byte", bytes([2 + ybit])), ("compressed point in x, y absent", None)):
+                cm = dict(owner.cose)
+                if yform is None:
+                    cm[-2] = bytes([2 + ybit]) + owner.cose[-2]
+                    del cm[-3]
+                else:
+                    cm[-3] = yform
+                s = regsim.RScn("none", kind)
+                s.k["cose_bytes"] = cbor2.dumps(cm)
+                s.cred_id = b"compressed-" + kind.encode() + bytes([ybit])
+                pd, reg = regsim.build(s)
+                pol = regrun.policy_of(pd)
+                il, ml = B.run_case(pol, reg, "dict", None, f"register/none/{kind} y as {what}", scn=s)
+                if not il.startswith("OK"):
+                    continue
+                with impl.substituted(pol.substitute, pol.now):
+                    vr = webauthn.verify_registration_response(credential=reg.as_dict(), **pol.kwargs())
+                cdj = authsim.client_data("webauthn.get", b"k" * 16, "https://example.com")
+                ad = authsim.authdata("example.com", 0x05, vr.sign_count + 1)
+                a = authsim.Assertion(other, vr.credential_id, cdj, ad, other.sign(ad + hashlib.sha256(cdj).digest()))
+                A.run_case(impl.AuthPolicy(b"k" * 16, "example.com", "https://example.com", vr.credential_public_key, vr.sign_count, False), a, "record", "reject",
+                           f"authenticate-after/{kind} y as {what}: signed by the mirror key")
     # RSA credential with a public exponent other than 65537: register (no signature by the credential key involved), then authenticate
     for e in (65539, 3):
         rc = authsim.rsa_cred_exponent(e)
